@@ -28,11 +28,16 @@ def plan(tier):
             qs.append(Q('arb:%s:%s' % (nm, 'dec' if d else 'enc'), 'c01.c',
                         'forall %d-round schedules (arbitrary round tweakeys), forall blocks: real %s == %d specification rounds' % (nr, 'decrypt' if d else 'encrypt', nr),
                         defs={'CB': cb, 'OB_ARB': 1, 'NR': nr, 'DIR': d}, timeout=900))
+    # the other word-size code path of the S-boxes and rounds (the full configuration matrix is C12; these cost a second)
+    import copy
+    for q in list(qs):
+        if q.name.startswith(('sbox:', 'round:')) or (tier == 'thorough' and q.name.startswith(('e2e:', 'sched:'))):
+            q2 = copy.copy(q); q2.name = q.name + ':w32'; q2.cfg = {'64BIT': 0}; q2.desc = q.desc + ' [32-bit word path, SKINNY_64BIT=0]'; qs.append(q2)
     return dict(
         queries=qs, level='model_checking', pre=[pre_model_selftest],
         functions=F128 + F64,
         bounds={'key sizes': 'the six primary sizes (8/16/24 and 16/32/48 bytes)', 'rounds': 'full depth, all loops fully unwound (32/36/40 and 40/48/56)',
-                'inputs': 'every key bit and every block bit symbolic', 'build configuration': 'default x86-64 (64-bit, little-endian, unaligned) here; other configurations in C12'},
+                'inputs': 'every key bit and every block bit symbolic', 'build configuration': 'default x86-64 (64-bit, little-endian, unaligned) for everything; S-box and single-round obligations also on the 32-bit word path (thorough: everything); the full configuration matrix is C12'},
         outside=['in-between key lengths (C10)', 'gcc code generation'],
         assumptions=BASE_ASSUMPTIONS + [MODEL_ASSUMPTION],
     )
